@@ -128,6 +128,23 @@ def byte_cases(wd):
             out.append({"i": 900000 + len(out), "kind": "bytes", "src": "cli", "cmd": cmd, "accepted": True, "end": end_of(rc),
                         "panic": bool(PANIC.search(se)), "located": True, "message": bool(se.strip()) or "rror" in so, "evaluated": 0,
                         "_args": [a.replace(wd.path + "/", "") for a in args], "_stderr": se[:600], "_case": {"blob": list(b[:40])}})
+    # directory arguments that hold no usable file
+    empty = os.path.join(wd.path, "emptydir")
+    os.makedirs(empty, exist_ok=True)
+    readme = os.path.join(wd.path, "readmedir")
+    os.makedirs(readme, exist_ok=True)
+    open(os.path.join(readme, "README.txt"), "w").write("nothing here\n")
+    rp = wd.write("dirs/r.guard", good_rules)
+    dp = wd.write("dirs/d.json", good_data)
+    for d in (empty, readme):
+        for cmd, args in (("validate", ["validate", "-r", rp, "-d", dp, "-i", d]), ("validate", ["validate", "-r", rp, "-d", d]),
+                          ("validate", ["validate", "-r", d, "-d", dp]), ("validate", ["validate", "-r", rp, "-d", dp, "-i", d, "--structured", "-o", "json", "-S", "none"]),
+                          ("validate", ["validate", "-r", d, "-d", d, "--structured", "-o", "junit", "-S", "none"]),
+                          ("test", ["test", "--dir", d]), ("test", ["test", "-r", rp, "-t", d])):
+            rc, so, se = cli.run(args, timeout=30)
+            out.append({"i": 900000 + len(out), "kind": "empty-dir", "src": "cli", "cmd": cmd, "accepted": True, "end": end_of(rc),
+                        "panic": bool(PANIC.search(se)), "located": True, "message": bool(se.strip()) or "rror" in so, "evaluated": 0,
+                        "_args": [a.replace(wd.path + "/", "") for a in args], "_stderr": se[:600], "_case": {"blob": []}})
     return out
 
 
